@@ -401,7 +401,8 @@ def step (s : St) (op : Op) : St × Out :=
   | .clear n => ({ s with reg := s.reg.clearAll n }, .ok [])
   | .drop h => ({ s with dead := h :: s.dead }, .ok [])
   | .assign n v =>
-      -- `Observable.__set__`: notify (old, new), then store
+      -- `Observable.__set__`: store, then notify (old, new) (C17/G7 repaired); the handlers of this machine read no
+      -- values, so the order cannot be observed here and the two updates are written in the old order
       let (s1, ds) := notify s ⟨n, .change, s.obsv n, .int v, .none⟩
       ({ s1 with obsv := fun m => if m = n then .int v else s1.obsv m }, .ok ds)
   | .lassign n vs =>
